@@ -37,7 +37,7 @@ inductive Knows (K : T → Prop) : T → Prop
   | perm {es es'} : Knows K (.pt es) → es.Perm es' → Knows K (.pt es')
   | kdf {p} (c : Nat) : Knows K p → Knows K (.kdf p c)
   | hash {t} : Knows K t → Knows K (.hash t)
-  | seal {k m} : Knows K k → Knows K m → Knows K (.seal k m)
+  | enc {k m} : Knows K k → Knows K m → Knows K (.seal k m)
   | open_ {k m} : Knows K (.seal k m) → Knows K k → Knows K m
   | pair {a b} : Knows K a → Knows K b → Knows K (.pair a b)
   | fst {a b} : Knows K (.pair a b) → Knows K a
